@@ -18,6 +18,7 @@ from .interp import Interp, SpecOpt, is_sym
 from . import lib as L
 
 OBLIG_TIMEOUT_MS = 10000
+UNIT_BUDGET_S = {"quick": 420, "thorough": 3600}  # wall time per unit before it counts as outside reach
 
 
 class Clause:
@@ -513,11 +514,15 @@ def verify_unit(world, func, ct, receiver=None, unit_name=None, setup=None, max_
         return outcome
 
     t0 = time.time()
+    paths = []
     try:
-        paths = explore(unit, max_paths=max_paths)
+        explore(unit, max_paths=max_paths, deadline=t0 + UNIT_BUDGET_S[getattr(world, "tier", "quick")], done=paths)
     except Unsupported as e:
         stats["unsupported"] = str(e)
         paths = []
+    except Budget as e:
+        # what was explored stays (a refuted obligation is a refuted obligation); the rest of the unit is outside reach this run
+        stats["unsupported"] = str(e)
     for ctx, out in paths:
         all_obligs.extend(ctx.obligs)
         stats["feas_unknown"] += ctx.feas_unknown
